@@ -373,3 +373,114 @@ func (p *Program) WalkHandlers(f func(h *Handler)) {
 		}
 	}
 }
+
+// Uses reports which prelude parts a program needs.
+func (p *Program) Uses() (classes, thenables bool) {
+	var opw func(op *Op)
+	var valw func(v *Val)
+	var bodyw func(b []AStep)
+	valw = func(v *Val) {
+		if v.K == VThen {
+			thenables = true
+		}
+		if v.K == VAsync {
+			bodyw(v.Body)
+		}
+	}
+	bodyw = func(b []AStep) {
+		for i := range b {
+			valw(&b[i].V)
+			if b[i].Do != nil {
+				opw(b[i].Do)
+			}
+		}
+	}
+	hw := func(h *Handler) {
+		if h == nil {
+			return
+		}
+		valw(&h.V)
+		if h.Do != nil {
+			opw(h.Do)
+		}
+	}
+	opw = func(op *Op) {
+		if op.Cls != ClsPromise {
+			classes = true
+		}
+		hw(op.F)
+		hw(op.R)
+		valw(&op.V)
+		for i := range op.Items {
+			valw(&op.Items[i])
+		}
+		for i := range op.Acts {
+			valw(&op.Acts[i].V)
+		}
+		bodyw(op.Body)
+	}
+	for _, s := range p.Segs {
+		for i := range s {
+			opw(&s[i])
+		}
+	}
+	return
+}
+
+// WalkVals calls f for every value expression of the program.
+func (p *Program) WalkVals(f func(v *Val)) {
+	var opw func(op *Op)
+	var valw func(v *Val)
+	var bodyw func(b []AStep)
+	valw = func(v *Val) {
+		f(v)
+		if v.K == VAsync {
+			bodyw(v.Body)
+		}
+	}
+	bodyw = func(b []AStep) {
+		for i := range b {
+			if b[i].K == AAwait || b[i].K == AReturn || b[i].K == AThrow {
+				valw(&b[i].V)
+			}
+			if b[i].Do != nil {
+				opw(b[i].Do)
+			}
+		}
+	}
+	hw := func(h *Handler) {
+		if h == nil || h.K == HNonCallable {
+			return
+		}
+		valw(&h.V)
+		if h.Do != nil {
+			opw(h.Do)
+		}
+	}
+	opw = func(op *Op) {
+		hw(op.F)
+		hw(op.R)
+		switch op.K {
+		case OpCall, OpGoCall:
+			valw(&op.V)
+		case OpStatic:
+			if op.St == StResolve || op.St == StReject {
+				valw(&op.V)
+			}
+		}
+		for i := range op.Items {
+			valw(&op.Items[i])
+		}
+		for i := range op.Acts {
+			if op.Acts[i].K != ActLog {
+				valw(&op.Acts[i].V)
+			}
+		}
+		bodyw(op.Body)
+	}
+	for _, s := range p.Segs {
+		for i := range s {
+			opw(&s[i])
+		}
+	}
+}
